@@ -354,6 +354,7 @@ def _r4(ctx):
     if cfmt is None:
         ctx.undecided("C01-R4", hfn, rel, "PDBTrajectoryFile._write_header", "CRYST1 format", "not found")
     else:
+        _cell_record_unconditional(ctx, rel, hfn)
         sp = L.spans(L.parse_brace(cfmt))
         srel = "mdtraj/formats/pdb/pdbstructure.py"
         lfn = ctx.py.func(srel, "PdbStructure._load")
@@ -635,3 +636,42 @@ def r4_box_lookahead(ctx):
         ctx.decide(guarded, "C01-R4", p_, MD, "MDCRDTrajectoryFile._read", "white-space tokenising of the look-ahead line tolerates touching fixed-width fields", "",
                    "`%s` converts white-space tokens of the line after a frame: when that line is the next frame's first coordinate line and two %%8.3f fields touch (a value <= -100), float() raises and a file "
                    "written without unit cell cannot be read back" % src(p_)[:70])
+
+
+def _cell_record_unconditional(ctx, rel, hfn):
+    """The CRYST1 record is what carries the cell through a PDB file: whenever a cell is given, every normal path through _write_header
+    must print it.  Allowed on the way: early returns and enclosing conditions that test only the cell arguments (no cell -> no record)."""
+    cell = {"unitcell_lengths", "unitcell_angles"}
+
+    def has_cryst(node):
+        return any(isinstance(c, ast.Constant) and isinstance(c.value, str) and c.value.startswith("CRYST1") for c in ast.walk(node))
+
+    def names(test):
+        return {n.id for n in ast.walk(test) if isinstance(n, ast.Name)} | {a.attr for a in ast.walk(test) if isinstance(a, ast.Attribute)}
+
+    def returns(stmts):
+        return any(isinstance(c, ast.Return) for st in stmts for c in ast.walk(st))
+    bad = None
+
+    def visit(stmts):
+        nonlocal bad
+        for st in stmts:
+            if has_cryst(st):
+                if isinstance(st, ast.If):
+                    if not names(st.test) <= cell | {"None", "len"}:
+                        bad = (st, "the CRYST1 record is written only under `%s`" % src(st.test))
+                        return True
+                    return visit(st.body) or visit(st.orelse)
+                if isinstance(st, (ast.For, ast.While, ast.Try, ast.With)):
+                    bad = (st, "the CRYST1 record is written inside a %s" % type(st).__name__)
+                return True
+            if isinstance(st, ast.If) and (returns(st.body) or returns(st.orelse)) and not names(st.test) <= cell | {"None", "len"}:
+                bad = (st, "`if %s: ... return` leaves before the CRYST1 record although a cell was given" % src(st.test))
+                return True
+            if isinstance(st, ast.Return):
+                bad = (st, "an unconditional return precedes the CRYST1 record")
+                return True
+        return False
+    found = visit(hfn.body)
+    ctx.decide(found and bad is None, "C01-R4", bad[0] if bad else hfn, rel, "PDBTrajectoryFile._write_header", "CRYST1 is printed on every normal path once a cell is given", "",
+               (bad[1] if bad else "no CRYST1 print reached") + ": a trajectory saved that way comes back without its unit cell")
